@@ -46,6 +46,26 @@ Theorem C17_label_value_forest : forall c l pp po, Forall label_ok (exec_forest 
 Proof. exact exec_forest_label. Qed.
 Print Assumptions C17_label_value_forest.
 
+(** Thread counts (run-time [--threads] / [Divan::threads]): the row of a case is
+    painted under the case's own path (for an argument case: ending in the
+    argument's label) whatever the number of thread counts — a leaf for one count, a
+    parent with one leaf "t=N" per count for two or more — and the function receives
+    the same argument for every count. *)
+Theorem C17_row_labels : forall tcs a id name path il arg,
+  painted (run_bench tcs a id name path il arg)
+  = match tcs with
+    | _ :: _ :: _ => (0, path) :: map (fun tc => (2, join_path path (thread_name tc))) tcs
+    | _ => [(2, path)]
+    end.
+Proof. exact row_labels. Qed.
+Print Assumptions C17_row_labels.
+
+Theorem C17_same_argument_every_thread_count : forall tcs a id name path il arg,
+  invoked_args (run_bench tcs a id name path il arg)
+  = match tcs with _ :: _ :: _ => map (fun _ => (id, arg)) tcs | _ => [(id, arg)] end.
+Proof. exact same_argument_every_thread_count. Qed.
+Print Assumptions C17_same_argument_every_thread_count.
+
 (** The argument list of a function is evaluated once per process (first use of
     its [BenchArgs] static) and every runner finds it initialised ... *)
 Theorem C17_once : forall es,
